@@ -46,6 +46,13 @@ class HBase(object):
         self.checks = []       # (label, verdict)
         self.choice_seq = []   # (name, index)
 
+    def set_option(self, key, value):
+        """engine options (symbolic runs only), e.g. ('sqrt', 'abstract')"""
+        if self.symbolic:
+            self.ctx.options[key] = value
+            from . import stubs
+            stubs._used('engine option %s=%s' % (key, value))
+
     def note(self, cls, n=1):
         self.notes[cls] = self.notes.get(cls, 0) + n
 
